@@ -337,6 +337,7 @@ func cmdCheck(args []string) int {
 		reports = append(reports, rep)
 	}
 	// bounded stand-ins (labelled bounded, never counted as discharged)
+	standinTier = *tier
 	standins := runStandins(*repo, vd, *prop, tmp, &known)
 	var standinEv []any
 	for _, sr := range standins {
